@@ -10,6 +10,8 @@
 -/
 import Nq.Lemmas.Local
 import Nq.Lemmas.LocalOutcome
+import Nq.Lemmas.LocalEnv
+import Nq.Lemmas.LocalEnvRun
 
 namespace Nq.Props.C13
 open Nq Nq.Local Nq.Gen.LocalExit Nq.Lemmas.Local
@@ -570,5 +572,129 @@ example : (LocalSpec.outcome { exSetting with look := fun _ => .missing }).code 
 /-- recipient "a\nB" at host "h": the newline becomes '_' -/
 example : dtline [97, 10, 66] [104] = [68, 101, 108, 105, 118, 101, 114, 101, 100, 45, 84, 111, 58, 32, 97, 95, 66, 64, 104, 10] := by
   decide
+
+/-! ### Extension round 4: the environment handed to commands (qmail-command(8) "ENVIRONMENT VARIABLES")
+
+Model `Nq.LocalEnv` (env.c's env_put2/env_get, the env_put2 sequence of `main()`, the From_ line with `myctime(now())`),
+documentation `Nq.LocalEnvSpec` (one entry per variable of the manual page).  `e0` is the environment qmail-local was
+started with, `user`/`home` its first two arguments, `now` the clock. -/
+
+open Nq.LocalEnv Nq.Lemmas.LocalEnv Nq.Lemmas.LocalEnvRun in
+/-- **The environment of every command is the documented one**, for every inherited environment, user, home directory,
+recipient, extension, host, sender (any bytes: empty parts, no dash, no dot, dashes and dots at the ends, 8-bit bytes,
+newlines) and clock: whenever a run gets as far as the instruction loop (`(run a w).ueo = some u`, the only situation
+in which a command can be run), the environment exists, every variable of qmail-command(8) has its documented value
+(`DEFAULT` is the part of the extension matched by "default" when `run` selected such a file, and otherwise keeps whatever
+was inherited — qmail-local does not remove it), and every other variable is inherited unchanged.
+Hypothesis `dateOk`: `date` is *the* civil date of `now` (any valid Gregorian date with that day number). -/
+theorem C13_env_documented (e0 : Env) (a : Args) (w : World) (user home : Bytes) (now : Nat) (date : Int × Int × Int) (u : Bytes)
+    (hu : (run a w).ueo = some u)
+    (hd : (givenOf (eargsOf a user home now) date (run a w).dfltEnv u).dateOk) :
+    ∃ env, commandEnv e0 a w user home now = some env ∧
+      (∀ p ∈ LocalEnvSpec.documented (givenOf (eargsOf a user home now) date (run a w).dfltEnv u),
+        envGet env p.1 = (match p.2 with
+          | some v => some v
+          | none => envGet e0 p.1)) ∧
+      (∀ k, k ∉ (LocalEnvSpec.documented (givenOf (eargsOf a user home now) date (run a w).dfltEnv u)).map (fun p => p.1) →
+        envGet env k = envGet e0 k) := by
+  refine ⟨envFinal e0 (eargsOf a user home now) (run a w).dfltEnv u, ?_, ?_, ?_⟩
+  · unfold commandEnv; rw [hu]
+  · exact documented_ok e0 _ _ u date hd
+  · exact fun k hk => others_inherited e0 _ _ u date k hk
+
+open Nq.LocalEnv Nq.Lemmas.LocalEnvRun in
+/-- the complement: a run that does not get that far (refused home, loop, unusable or missing control file, temporary error
+on the -owner test) has no command environment and runs no command (no effect at all) -/
+theorem C13_env_none (e0 : Env) (a : Args) (w : World) (user home : Bytes) (now : Nat) (hu : (run a w).ueo = none) :
+    commandEnv e0 a w user home now = none ∧ (run a w).effects = [] := by
+  have h := (run_envFacts a w).2
+  rw [hu] at h
+  exact ⟨by unfold commandEnv; rw [hu], h⟩
+
+open Nq.Lemmas.LocalEnvRun in
+/-- **DEFAULT is put exactly when the selected control file's name ends in "default"**, and then it is the part of the
+(original, not lower-cased) extension that the word stands for — `LocalSpec.defaultVar`, qmail-command(8) — for whole runs:
+`(run a w).dfltEnv` is what `C13_env_documented` puts under `DEFAULT`. -/
+theorem C13_env_default (a : Args) (w : World) :
+    (run a w).dfltEnv = (match (run a w).sel with
+      | some c => LocalSpec.defaultVar a.dash a.ext c.name
+      | none => none) := by
+  have h := (run_envFacts a w).1
+  cases hs : (run a w).sel with
+  | none => rw [hs] at h; exact h
+  | some c => rw [hs] at h; rw [h.2]; exact default_eq_spec a.dash a.ext c h.1
+
+open Nq.Lemmas.LocalEnvRun in
+/-- **NEWSENDER** is the sender `qmeox`'s -owner / -owner-default tests produce (`ueoOf`), which `C13_owner` proves to be
+dot-qmail(5)'s rule (`LocalSpec.forwardSender`: bounces keep their sender; `local-owner@host` if `.qmail…-owner` exists,
+the VERP form `local-owner-@host-@[]` if `-owner-default` exists as well; otherwise the original sender). -/
+theorem C13_env_newsender (a : Args) (w : World) (u : Bytes) (hu : (run a w).ueo = some u) :
+    ueoOf a.loc a.dash (safeext a.ext) a.host a.sender w.ex = .ok u := by
+  have h := (run_envFacts a w).2
+  rw [hu] at h
+  exact h
+
+open Nq.Lemmas.LocalEnv in
+/-- **EXT2, EXT3, EXT4 in the manual's words**: `following 45 n ext` (the value documented for `EXT(n+1)`) is exactly what
+follows the dash that has `n - 1` dashes before it; with fewer than `n` dashes it is empty. -/
+theorem C13_env_ext (n : Nat) (pre r ext : Bytes) :
+    (pre.count 45 = n → LocalEnvSpec.following 45 (n + 1) (pre ++ 45 :: r) = r) ∧
+    (ext.count 45 ≤ n → LocalEnvSpec.following 45 (n + 1) ext = []) :=
+  ⟨following_split 45 r pre n, following_few 45 ext n⟩
+
+open Nq.Lemmas.LocalEnv in
+/-- **HOST2, HOST3, HOST4 in the manual's words**: one step of `preceding` removes the last dot and what follows it;
+a host without a dot is left as it is (so with fewer dots than asked for, the portion preceding the first dot results). -/
+theorem C13_env_host (l r h : Bytes) (n : Nat) :
+    (46 ∉ r → LocalEnvSpec.preceding (n + 1) (l ++ 46 :: r) = LocalEnvSpec.preceding n l) ∧
+    (46 ∉ h → LocalEnvSpec.preceding n h = h) := by
+  constructor
+  · intro hr
+    have : LocalEnvSpec.precedingLastDot (l ++ 46 :: r) = l := by
+      rw [← beforeLastDot_eq_spec]; exact beforeLastDot_split l r hr
+    simp [LocalEnvSpec.preceding, this]
+  · intro hh
+    have : LocalEnvSpec.precedingLastDot h = h := by
+      rw [← beforeLastDot_eq_spec]; exact beforeLastDot_nodot h hh
+    induction n with
+    | zero => rfl
+    | succ m ih => simp [LocalEnvSpec.preceding, this, ih]
+
+open Nq.Lemmas.LocalEnv in
+/-- **The date in the From_ line (`UFLINE`)** is the Gregorian UTC date and time of the clock value, for every sender and
+every `now`: "From " word " " Www Mmm dd hh:mm:ss yyyy "\n" where (yyyy, Mmm, dd) is a valid civil date whose day number is
+⌊now/86400⌋ (unique: `Nq.Lemmas.Datetime.tai_unique`), the weekday is (day number + 4) mod 7 and hh:mm:ss is now mod 86400. -/
+theorem C13_ufline_date (sender : Bytes) (now : Nat) : LocalEnvSpec.IsUfline sender now (Nq.LocalEnv.ufline sender now) :=
+  ufline_isUfline sender now
+
+open Nq.Lemmas.LocalEnv in
+/-- the compiled oracle for `UFLINE` accepts only such lines -/
+theorem C13_ufline_oracle_sound (sender : Bytes) (now : Nat) (l : Bytes) (h : LocalEnvSpec.uflineOracle sender now l = true) :
+    LocalEnvSpec.IsUfline sender now l := uflineOracle_sound sender now l h
+
+open Nq.Lemmas.LocalEnv in
+/-- **DTLINE, RPLINE and UFLINE (with its date) are single lines** for every recipient, host, sender and clock value -/
+theorem C13_env_lines (loc host sender : Bytes) (now : Nat) :
+    LocalSpec.oneLine (dtline loc host) = true ∧ LocalSpec.oneLine (rpline sender) = true ∧
+    LocalSpec.oneLine (Nq.LocalEnv.ufline sender now) = true :=
+  ⟨dtline_oneLine loc host, rpline_oneLine sender, ufline_oneLine sender now⟩
+
+/-! Non-vacuity of the environment theorems -/
+
+/-- ext "a-b--c": EXT2 "b--c", EXT3 "-c", EXT4 "c"; "-" at the end: EXT2 ""; no dash: "" -/
+example : LocalEnvSpec.following 45 1 [97, 45, 98, 45, 45, 99] = [98, 45, 45, 99] ∧
+    LocalEnvSpec.following 45 2 [97, 45, 98, 45, 45, 99] = [45, 99] ∧ LocalEnvSpec.following 45 3 [97, 45, 98, 45, 45, 99] = [99] ∧
+    LocalEnvSpec.following 45 1 [97, 45] = [] ∧ LocalEnvSpec.following 45 1 [97] = [] := by decide
+/-- host "a.b.c": HOST2 "a.b", HOST3 "a", HOST4 "a"; ".x": HOST2 ""; "x.": "x"; "x": "x" -/
+example : LocalEnvSpec.preceding 1 [97, 46, 98, 46, 99] = [97, 46, 98] ∧ LocalEnvSpec.preceding 2 [97, 46, 98, 46, 99] = [97] ∧
+    LocalEnvSpec.preceding 3 [97, 46, 98, 46, 99] = [97] ∧ LocalEnvSpec.preceding 1 [46, 120] = [] ∧
+    LocalEnvSpec.preceding 1 [120, 46] = [120] ∧ LocalEnvSpec.preceding 1 [120] = [120] := by decide
+/-- the hypotheses of `C13_env_ext` / `C13_env_host` are satisfiable: "a-b" = "a" ++ '-' :: "b" with no dash in "a" -/
+example : ([97] : Bytes).count 45 = 0 ∧ (46 : UInt8) ∉ ([99] : Bytes) := by decide
+/-- 2001-09-09 (month index 8) is a valid date with day number 11574 = ⌊1000000000/86400⌋: `dateOk` is satisfiable -/
+example : Nq.Datetime.validDate 2001 8 9 ∧ Nq.Datetime.daysFromCivil 2001 8 9 = (1000000000 : Int) / 86400 := by decide
+/-- an inherited DEFAULT survives a put of another name and is replaced by a put of its own -/
+example : Nq.LocalEnv.envGet (Nq.LocalEnv.envPut [([68], [1]), ([69], [2])] [69] [3]) [68] = some [1] ∧
+    Nq.LocalEnv.envGet (Nq.LocalEnv.envPut [([68], [1]), ([69], [2])] [68] [3]) [68] = some [3] := by decide
 
 end Nq.Props.C13
